@@ -129,8 +129,9 @@ class Conn:
 class PipeWorld:
     '''one engine + target set; module state of schedule/farm is *the* state'''
 
-    def __init__(self, desc, targets, mode='ample', rev='r1', store_next=7):
+    def __init__(self, desc, targets, mode='ample', rev='r1', store_next=7, real_db=False):
         install_seams()
+        self.real_db = real_db
         self.eng = aegen.Engine(desc)
         self.factories = self.eng.load(common.scratch_root())
         self.targets = list(targets)
@@ -143,6 +144,7 @@ class PipeWorld:
         self.obs = []        # observations of the current step
         self.inflight = []   # ground truth: [jobid, target, runid, uid]
         self.uid = 0
+        self.tasks_msgs = {}
         self.nodes = {}
         self.next_calls = 0
         self._patch()
@@ -152,13 +154,18 @@ class PipeWorld:
     def _patch(self):
         w = self
         chronicle.append = lambda entry: w.chron.append(dict(entry))
-        dawgie.db.targets = lambda *a, **k: list(w.targets)
+        if getattr(self, 'real_db', False):
+            # store tier: the real shelve store answers
+            dawgie.db.targets = _installed['targets']
+            dawgie.db.next = _installed['next']
+        else:
+            dawgie.db.targets = lambda *a, **k: list(w.targets)
 
-        def nxt():
-            w.next_calls += 1
-            return w.store_next
+            def nxt():
+                w.next_calls += 1
+                return w.store_next
 
-        dawgie.db.next = nxt
+            dawgie.db.next = nxt
         dawgie.context.fsm = self.fsm
         dawgie.context.git_rev = self.rev
 
@@ -330,6 +337,7 @@ class PipeWorld:
                     tgt = m.target if m.target else '__all__'
                     self.uid += 1
                     self.inflight.append([m.jobid, tgt, m.runid, self.uid])
+                    self.tasks_msgs[self.uid] = m
                     self.obs.append(('task', id(c), m.jobid, tgt, m.runid,
                                      m.factory, c.rev, c.lost, self.fsm.active,
                                      c.tasks))
